@@ -47,6 +47,18 @@ def configs(tier, seed):
             else:
                 ops.append(["add_again"])
         cfgs.append({"aw": aw, "dw": dw, "g": g, "ops": ops})
+    # directed edge cases (independent of the random stream): layouts at the very end of the address space whose RAW size fits
+    # but whose power-of-two ROUNDED size does not; an explicit offset inside a previous register; back-to-back odd sizes
+    for aw in (2, 3, 4, 6):
+        for dw, g in ((8, 8), (16, 8), (32, 8), (32, 32)):
+            k = dw // g
+            top = 1 << aw
+            cfgs.append({"aw": aw, "dw": dw, "g": g, "ops": [["add", "a", 3 * dw, (top - 3) * k]]})              # 3 -> 4 words: overflows
+            cfgs.append({"aw": aw, "dw": dw, "g": g, "ops": [["add", "a", dw, 0], ["add", "b", 3 * dw, (top - 4) * k]]})   # exactly fits
+            cfgs.append({"aw": aw, "dw": dw, "g": g, "ops": [["add", "a", 3 * dw, 0], ["add", "b", dw, 3 * k]]})   # inside a's rounded span
+            cfgs.append({"aw": aw, "dw": dw, "g": g, "ops": [["add", "a", dw + 1, None], ["add", "b", dw, None], ["add", "c", 2 * dw + 1, None]]})
+            if top >= 8:
+                cfgs.append({"aw": aw, "dw": dw, "g": g, "ops": [["add", "a", dw, (top - 1) * k], ["add", "b", dw, None]]})   # cursor at the end
     return cfgs
 
 
